@@ -9,7 +9,8 @@ factory `mk : Prob → Alg` and every `fuel`.  Auxiliary definitions (`innerRun`
 `StartExact`, `ElimQ`, …) and the concrete objects of the examples (`WrapEx`) live in `Lemmas/WrapLemmas.lean`.
 
 * T1 (C07b) `optimize_preserves_settings(_exact)`      * T2 (C08) `max_is_min_neg`
-* T3 (C02/C05) `memo_returns_best_evaluated`           * T4 (C09) `ill_posed_rejected`, `rejected_*`, `zero_dim_single_eval`
+* T3 (C02/C05) `memo_returns_best_evaluated`           * T4 (C09) `ill_posed_rejected`, `rejected_*`, `zero_dim_single_eval`,
+  `zero_dim_forced_stop`, `zero_dim_no_stop`
 * T5 (C11) `elim_equiv`                                * T6 (C13) `wrappers_forward_trace`, `wrappers_forward_args`
 * T7 (C03/C04) `wrappers_pass_result`, `wrappers_pass_running`, `stop_request_forwarded`
 * witnesses of false target statements: `optimize_preserves_settings_unconditional_false`,
@@ -378,14 +379,19 @@ theorem ill_posed_rejected {σ : Type} (A : Arith) (caps : WrapCaps) (U : Env σ
         exact ⟨this.1, fun o ho hse => (this.2 o ho).2.1 hse⟩
 
 /-- (g) dimension 0 (an `n = 0` object, or every coordinate eliminated): exactly one evaluation of the objective,
-    at the start point, `NLOPT_SUCCESS`, the evaluation counter reads 1, the user's value comes back. -/
+    at the start point; the result code is `NLOPT_FORCED_STOP` exactly when that evaluation called
+    `nlopt_set_force_stop(opt, s)` with `s ≠ 0` (`return opt->force_stop ? NLOPT_FORCED_STOP : NLOPT_SUCCESS;`) and
+    `NLOPT_SUCCESS` otherwise; the evaluation counter reads 1, the user's value comes back. -/
 theorem zero_dim_single_eval {σ : Type} (A : Arith) (caps : WrapCaps) (U : Env σ) (mk : Prob → Alg) (fuel : Nat)
     (v : CoreView) (hl : Bool) (x : List F64) (f0 : F64) (st : σ) (hf : v.f ≠ 0)
     (he : earlyFixed caps v x = false)
     (hn : (innerView v (layersOf caps v).maximize (layersOf caps v).elim).n = 0) :
     (optimize A caps U mk fuel v hl x f0 st).2 = (U.call st (startQuery caps v x)).1 ∧
     ∃ o, (optimize A caps U mk fuel v hl x f0 st).1 = some o ∧
-      o.ret = rSUCCESS ∧ o.utrace = [(startQuery caps v x, (U.call st (startQuery caps v x)).2)] ∧
+      o.ret = (match (U.call st (startQuery caps v x)).2.stop with
+               | some s => if s ≠ 0 then rFORCED else rSUCCESS
+               | none => rSUCCESS) ∧
+      o.utrace = [(startQuery caps v x, (U.call st (startQuery caps v x)).2)] ∧
       o.atrace.length = 1 ∧ o.after.numevals = 1 ∧ o.x = (startQuery caps v x).x ∧
       (StartExact caps v x → o.x = x) ∧
       (∀ u, (U.call st (startQuery caps v x)).2.val = [u] → o.optf = u) := by
@@ -401,8 +407,8 @@ theorem zero_dim_single_eval {σ : Type} (A : Arith) (caps : WrapCaps) (U : Env 
   have hd : F64.lt ({} : MemoSt).minf F64.dblMax = false := by decide
   refine ⟨by simp [hua], _, rfl, ?_⟩
   refine ⟨rfl, rfl, rfl, rfl, ?_⟩
-  have hxx : (assemble caps v
-      { ret := rSUCCESS, x := innerX caps v x,
+  have hxx : ∀ r0 : Int, (assemble caps v
+      { ret := r0, x := innerX caps v x,
         minf := ((layersOf caps v).algAnswer {} (startQuery caps v x) ua).2.val.headD f0,
         numevals := 1,
         atrace := [({ fn := .obj, x := innerX caps v x, wantGrad := false },
@@ -410,11 +416,12 @@ theorem zero_dim_single_eval {σ : Type} (A : Arith) (caps : WrapCaps) (U : Env 
       [(startQuery caps v x, ua)]
       ((layersOf caps v).algAnswer {} (startQuery caps v x) ua).1).x
       = (startQuery caps v x).x := by
+    intro r0
     simp only [assemble, hx1]
     rcases hms with h | ⟨h1, h2⟩
     · rw [h, hd]; simp
     · rw [h1]; split <;> simp
-  refine ⟨hxx, ?_, ?_⟩
+  refine ⟨hxx _, ?_, ?_⟩
   · intro hse
     rw [hxx]
     simp only [startQuery, Layers.userQuery, innerX]
@@ -432,6 +439,44 @@ theorem zero_dim_single_eval {σ : Type} (A : Arith) (caps : WrapCaps) (U : Env 
     · rw [hval] at h2
       rcases Bool.eq_false_or_eq_true v.maximize with hmx | hmx <;> simp [hmx] at h2 hval <;>
         rw [hval, ← h2] <;> simp [hmx, F64.neg_neg'] <;> split <;> simp [F64.neg_neg']
+
+/-- (g'), the objective raised a stop: if the single evaluation called `nlopt_set_force_stop(opt, s)` with `s ≠ 0`,
+    the zero-dimensional call returns `NLOPT_FORCED_STOP` — still exactly one user evaluation, counter 1, same `x`. -/
+theorem zero_dim_forced_stop {σ : Type} (A : Arith) (caps : WrapCaps) (U : Env σ) (mk : Prob → Alg) (fuel : Nat)
+    (v : CoreView) (hl : Bool) (x : List F64) (f0 : F64) (st : σ) (hf : v.f ≠ 0)
+    (he : earlyFixed caps v x = false)
+    (hn : (innerView v (layersOf caps v).maximize (layersOf caps v).elim).n = 0)
+    (s : Int) (hs : (U.call st (startQuery caps v x)).2.stop = some s) (hs0 : s ≠ 0) :
+    (optimize A caps U mk fuel v hl x f0 st).2 = (U.call st (startQuery caps v x)).1 ∧
+    ∃ o, (optimize A caps U mk fuel v hl x f0 st).1 = some o ∧
+      o.ret = rFORCED ∧ o.utrace = [(startQuery caps v x, (U.call st (startQuery caps v x)).2)] ∧
+      o.atrace.length = 1 ∧ o.after.numevals = 1 ∧ o.after.forceStop = s ∧ o.x = (startQuery caps v x).x ∧
+      (StartExact caps v x → o.x = x) ∧
+      (∀ u, (U.call st (startQuery caps v x)).2.val = [u] → o.optf = u) := by
+  obtain ⟨h1, o, ho, hret, hut, hat, hne, hx, hse, hv⟩ := zero_dim_single_eval A caps U mk fuel v hl x f0 st hf he hn
+  refine ⟨h1, o, ho, ?_, hut, hat, hne, ?_, hx, hse, hv⟩
+  · rw [hret, hs]; simp [hs0]
+  · rcases optimize_some_cases (show optimize A caps U mk fuel v hl x f0 st = (some o, _) from Prod.ext ho rfl) with
+      ⟨hf', _⟩ | ⟨_, he', _⟩ | ⟨_, _, io, hio, ho', _⟩
+    · exact absurd hf' hf
+    · rw [he] at he'; exact absurd he' Bool.false_ne_true
+    · have hfs : o.after.forceStop = lastStop o.utrace := by rw [ho']; rfl
+      rw [hfs, hut]; simp [lastStop, hs]
+
+/-- (g''), no stop raised by the single evaluation: `NLOPT_SUCCESS`. -/
+theorem zero_dim_no_stop {σ : Type} (A : Arith) (caps : WrapCaps) (U : Env σ) (mk : Prob → Alg) (fuel : Nat)
+    (v : CoreView) (hl : Bool) (x : List F64) (f0 : F64) (st : σ) (hf : v.f ≠ 0)
+    (he : earlyFixed caps v x = false)
+    (hn : (innerView v (layersOf caps v).maximize (layersOf caps v).elim).n = 0)
+    (hs : (U.call st (startQuery caps v x)).2.stop = none) :
+    (optimize A caps U mk fuel v hl x f0 st).2 = (U.call st (startQuery caps v x)).1 ∧
+    ∃ o, (optimize A caps U mk fuel v hl x f0 st).1 = some o ∧
+      o.ret = rSUCCESS ∧ o.utrace = [(startQuery caps v x, (U.call st (startQuery caps v x)).2)] ∧
+      o.atrace.length = 1 ∧ o.after.numevals = 1 ∧ o.x = (startQuery caps v x).x ∧
+      (StartExact caps v x → o.x = x) ∧
+      (∀ u, (U.call st (startQuery caps v x)).2.val = [u] → o.optf = u) := by
+  obtain ⟨h1, o, ho, hret, rest⟩ := zero_dim_single_eval A caps U mk fuel v hl x f0 st hf he hn
+  exact ⟨h1, o, ho, by rw [hret, hs], rest⟩
 
 /-! ## T5 (C11): dimension elimination = the hand-reduced problem -/
 
@@ -738,6 +783,12 @@ example : (optimize (arith F64.zero) caps (user F64.one two) alg 10
     { view with lb := some [F64.zero, F64.one], ub := some [F64.zero, F64.one] } false [F64.zero, F64.one] half 0).1.map
     (fun o => (o.ret, o.x, o.optf, o.after.numevals, o.utrace.length)) =
     some (rSUCCESS, [F64.zero, F64.one], F64.one, 1, 1) := by decide
+/-- T4 (g'): the same, but the single evaluation calls `nlopt_set_force_stop(opt, 3)` (user started in state 1):
+    FORCED_STOP, still one evaluation, counter 1, the user's value, the flag reads 3 -/
+example : (optimize (arith F64.zero) caps (user F64.one two) alg 10
+    { view with lb := some [F64.zero, F64.one], ub := some [F64.zero, F64.one] } false [F64.zero, F64.one] half 1).1.map
+    (fun o => (o.ret, o.x, o.optf, o.after.numevals, o.utrace.length, o.after.forceStop)) =
+    some (rFORCED, [F64.zero, F64.one], two, 1, 1, 3) := by decide
 
 /-- WITNESS (T4, "x unchanged" needs `StartExact`): start (-0.0, -2.0) with the fixed bound +0.0.  The pre-elimination
     check passes (`-0.0 < +0.0` is false), the bound check of the reduced problem rejects the call — and `x` comes
